@@ -85,7 +85,7 @@ def run_scenario(chk, sc, cfgseed, ndims):
             j = (cfgseed // 5) % len(fields)
             (mins if nan_at % 2 == 0 else maxs)[b][j] = float("nan")
         return mins, maxs
-    d = os.path.join(chk.tmp(), "plt00100")
+    d = os.path.join(chk.tmp_reuse(), "plt00100")
     os.makedirs(os.path.dirname(d))
     reg = gamma.write_plotfile(d, ap, cfg_, mm_override=mm_override)
     before = alpha.tree_digest(d)
